@@ -97,6 +97,17 @@ impl Ctx {
     }
 
     pub fn uf_bytes(&mut self, name: &str, m: &[u8]) -> u32 {
+        let (shape, args) = self.parse_pieces(m);
+        let node = self.uf_apply(UfSig { name: name.to_string(), shape }, args);
+        if self.cfg.dense {
+            let v = self.eval(0, node);
+            return self.cst(v);
+        }
+        node
+    }
+
+    /// split a byte string into literal chunks and embedded symbolic blocks
+    pub fn parse_pieces(&mut self, m: &[u8]) -> (Vec<Piece>, Vec<u32>) {
         let mut shape: Vec<Piece> = vec![];
         let mut args: Vec<u32> = vec![];
         let mut raw: Vec<u8> = vec![];
@@ -121,12 +132,7 @@ impl Ctx {
         if !raw.is_empty() {
             shape.push(Piece::Lit(raw));
         }
-        let node = self.uf_apply(UfSig { name: name.to_string(), shape }, args);
-        if self.cfg.dense {
-            let v = self.eval(0, node);
-            return self.cst(v);
-        }
-        node
+        (shape, args)
     }
 
     pub fn rng_draw(&mut self, len: usize) -> Vec<u8> {
